@@ -736,8 +736,8 @@ var c30Scenarios = []c30Scenario{
 			rt.note("OnActivate gate on A not reached")
 			return
 		}
-		// A's lookups so far: sender 1's send-time GetGrain (not found); the next one is sender 2's
-		r2, g2 := rt.gateRule(rt.A(), "GetGrain", true, 2)
+		// the next owner lookup on A (counted from the creation of this rule) is sender 2's
+		r2, g2 := rt.gateRule(rt.A(), "GetGrain", true, 1)
 		s2 := rt.send(rt.A(), c30SendKind(rt.rng))
 		if !rt.arrived(g2, s2) {
 			rt.note("gate after sender 2's send-time GetGrain on A not reached")
